@@ -434,7 +434,8 @@ func Monitors(c *Case) []vh.Violation {
 		cause := "other"
 		if lifecyclePanic {
 			cause = "lifecycle-handler-panic"
-		} else {
+		}
+		{
 			// a registered actor that failed and has handled nothing since (still suspended: no directive released it),
 			// while graceful termination requests — user messages, which a suspended mailbox does not take — are around
 			graceful := c.Scn.Final
@@ -444,15 +445,14 @@ func Monitors(c *Case) []vh.Violation {
 				}
 			}
 			for _, t := range regs {
+				// a failure: scripted (F) or a panic raised by the framework inside the handler (e.g. a spawn under a
+				// taken name), visible as a supervisor decision (DEC) naming the actor as the victim
 				lastF, lastH := -1, -1
 				for i, o := range fl {
-					if o.A != t {
-						continue
-					}
-					switch o.K {
-					case "F":
+					switch {
+					case o.K == "F" && o.A == t, o.K == "DEC" && o.Who == t:
 						lastF = i
-					case "H":
+					case o.K == "H" && o.A == t:
 						lastH = i
 					}
 				}
